@@ -11,6 +11,7 @@ from __future__ import annotations
 import itertools
 
 from vf.gen.host import HostGen
+from vf.harness import controller as hc
 from vf.harness import hostdiff
 
 PID = "C06"
@@ -43,6 +44,13 @@ def cases(ctx):
                 prog = [{"op": "qalloc", "q": "q1"}, {"op": "rot", "axis": axis, "q": "q1", "n": {"tmpl": "t0"}, "d": 4},
                         {"op": "meas", "q": "q1", "to": {"kind": "new", "name": "m1"}, "inplace": v % 2 == 0}]
                 yield {"kind": "twin", "prog": prog, "values": {"t0": v}, "modes": ["pre"], "hardware": "generic", "script": [v % 2]}
+    for route in ("copies", "proto"):
+        for host_values in (False, True):
+            for _ in range(2 if ctx.quick else 20):
+                k += 1
+                if ctx.mine(k):
+                    yield {"kind": "template-routes", "route": route, "host_values": host_values, "hardware": "generic",
+                           "values": [[rng.randrange(1, 32), rng.randrange(1, 16)] for _ in range(rng.choice([2, 3, 4]))]}
     for _ in range(ctx.n(150, 15000)):
         yield rounds_case(rng, "nv" if rng.random() < 0.25 else "generic")
     for _ in range(ctx.n(140, 20000)):
@@ -112,7 +120,55 @@ def _has_template(stmts):
     return False
 
 
+def _template_routes(ctx, case):
+    """One templated block compiled once and sent several times with other values: through copies of the compiled subroutine
+    (copy.copy(template).instantiate(..)), and through the older route that fills the values in at the IR level
+    (subrt_pop_pending_subroutine -> ProtoSubroutine.instantiate -> commit_protosubroutine). Values are plain ints or int
+    subclasses that carry their value in __int__ (what a host holds after reading a measurement outcome)."""
+    import copy as _copy
+    from netqasm.lang.operand import Template
+    from netqasm.sdk.qubit import Qubit
+    from vf.harness.pipeline import Pipe
+    route, values, nv = case["route"], case["values"], case["hardware"] == "nv"
+    pipe = Pipe(script=[0] * 16, hardware=case["hardware"], max_qubits=3)
+    wrap = (lambda v: hostdiff._HostValue(v)) if case.get("host_values") else (lambda v: v)
+    ctx.count("template_route_cases")
+    try:
+        with pipe.conn as conn:
+            def block():
+                q = Qubit(conn)
+                q.rot_X(n=Template("a"), d=4)
+                q.rot_Z(n=Template("b"), d=3)
+                q.measure()
+            if route == "copies":
+                block()
+                tmpl = conn.compile()
+                for a_, b_ in values:
+                    s_ = _copy.copy(tmpl)
+                    s_.instantiate(conn.app_id, {"a": wrap(a_), "b": wrap(b_)})
+                    conn.commit_subroutine(s_)
+            else:
+                for a_, b_ in values:
+                    block()
+                    proto = conn.builder.subrt_pop_pending_subroutine()
+                    proto.instantiate(conn.app_id, {"a": wrap(a_), "b": wrap(b_)})
+                    conn.commit_protosubroutine(proto)
+    except (hc.ControllerFault, hc.StepLimit) as e:
+        ctx.fail(case, f"template route {route}: controller run failed: {e}")
+        return ctx.case(case, True)
+    got = [(ev[0], ev[2]) for ev in pipe.ex.trace if ev[0] in ("rot_x", "rot_z")]
+    want = [x for a_, b_ in values for x in (("rot_x", a_), ("rot_z", b_))]
+    if nv:
+        got = [g for g in got if g in want] if len(got) != len(want) else got
+    if got != want:
+        ctx.fail(case, f"template route '{route}' ({'host-value objects' if case.get('host_values') else 'ints'}): the controller applied rotations "
+                       f"{got[:8]} where the values filled in were {want[:8]}")
+    ctx.case(case, True)
+
+
 def run_case(ctx, case):
+    if case.get("kind") == "template-routes":
+        return _template_routes(ctx, case)
     prog = case["prog"]
 
     def fail(what, key):
